@@ -215,13 +215,14 @@ def run(ctx, rep):
            "", oc.span, fn=oc.path)
     no_view_stored(F, rep, ctx)
     code_labels(ctx, rep)
+    receiver_is_bound(ctx, rep)
     # bin_op dispatches `is` to runtime_addr_check
     bo = need(F, "bytecode::instruction::implementations::bin_op")
     rep.ob("C08.identity-test", "bin_op dispatches to runtime_addr_check", "ok" if bo.calls_to("bytecode::variables::primitive::Primitive::runtime_addr_check") else "violated",
            "", bo.span, fn=bo.path)
 
 
-def no_view_stored(F, rep, ctx):
+def no_view_stored(F, rep, ctx, rule="C08.no-view-stored"):
     """A field / element *view* (Primitive::HeapPrimitive) denotes a storage cell, not a value.  Whatever an instruction handler
     stores into a variable cell must have been copied out of such a view first (move_out_of_heap_primitive), or a binding made
     from `obj.field` keeps following the field after it is re-assigned (identity and aliasing break)."""
@@ -258,14 +259,14 @@ def no_view_stored(F, rep, ctx):
                 srcs = [by[o[1]] for o in oc if o[0] == "call"]
                 others = [o for o in oc if o[0] not in ("call", "const")]
                 unsafe = [x for x in srcs if not x.matches(SAFE)]
-                key = "C08.no-view-stored|%s|%s" % (mir.short(f.path), mir.short(pat))
+                key = rule + "|%s|%s" % (mir.short(f.path), mir.short(pat))
                 inst = "%s stores a value that was copied out of any field/element view" % mir.short(f.path)
                 if not unsafe and not others:
-                    rep.ob("C08.no-view-stored", inst, "ok", "", c.span, fn=f.path, key=key)
+                    rep.ob(rule, inst, "ok", "", c.span, fn=f.path, key=key)
                     continue
                 base = f.path.split("::{")[0].split("::")[-1]
                 if base not in emitted:
-                    rep.ob("C08.no-view-stored", inst, "exempt", "the compiler never emits `%s` (checked against the instruction! literals on this run)" % base,
+                    rep.ob(rule, inst, "exempt", "the compiler never emits `%s` (checked against the instruction! literals on this run)" % base,
                            c.span, fn=f.path, key=key)
                     continue
                 if base == "ptr_mut":
@@ -277,14 +278,14 @@ def no_view_stored(F, rep, ctx):
                     ok = lits[:1] == ["store"] and "load_fast" in lits and lits.index("load_fast") < lits.index("ptr_mut") if "ptr_mut" in lits else False
                     only = [ff.path for ff, nm, sp, cc in opcodes.instruction_literals(F_all(ctx)) if nm == "ptr_mut"]
                     ok = ok and len(only) == 1
-                    rep.ob("C08.no-view-stored", inst, "ok" if ok else "violated",
+                    rep.ob(rule, inst, "ok" if ok else "violated",
                            "ptr_mut takes the value as popped; the only emitter (Reassignment::compile) must load it from a temporary written by `store`: %s" % lits,
                            c.span, fn=f.path, key=key)
                     continue
-                rep.ob("C08.no-view-stored", inst, "violated",
+                rep.ob(rule, inst, "violated",
                        "the stored value can come straight from %s without move_out_of_heap_primitive: a view of a field/element cell would be bound "
                        "to the variable" % sorted({mir.short(x.callee()) for x in unsafe} | {str(o) for o in others}), c.span, fn=f.path, key=key)
-    rep.floor("C08.no-view-stored store sites in handlers", n, 8)
+    rep.floor(rule + " store sites in handlers", n, 8)
 
 
 _FALL = {}
@@ -355,3 +356,74 @@ def code_labels(ctx, rep):
                 st, why = "ok", "duplicate class names are refused file-wide"
             rep.ob("C08.code-label", label + " from a name that is unique in the file", st, why, s_.get("sp"), fn=f.path, key=key)
     rep.floor("C08.code-label label constructions", n, 4)
+
+
+
+def receiver_is_bound(ctx, rep):
+    """`recv.m(args)` runs m with `self` bound to the object the method was looked up on.  The generator of a method-call link parks the
+    receiver in a register it has just polled and gives that register's name to the call (`Callable::new(.., Some(register))`), which loads
+    `self` from it.  A polled register holds nothing of this expression until the generator stores into it, so on every path on which a
+    register is named as the receiver the emitted word contains `store_fast <that register>` before the call's code.  The generator is
+    evaluated for every combination of its boolean fields; registers are distinct opaque names."""
+    import itertools
+    import jumps
+    import seqgen
+    import absint
+    from absint import Variant, Opaque, TRUE, FALSE, Interp
+    F = ctx.facts("default", ["compiler", "bytecode"])
+    DLO = "compiler::ast::dot_lookup::DotLookupOption"
+    a = F.adt(DLO)
+    f = F.fn("<compiler::ast::dot_lookup::DotLookupOption as compiler::ast::Compile>::compile")
+    if a is None or f is None:
+        raise AnchorMissing("DotLookupOption / its Compile impl")
+    names = [v["name"] for v in a["variants"]]
+    fc = [v for v in a["variants"] if v["name"] == "FunctionCall"]
+    if not fc:
+        raise AnchorMissing("DotLookupOption::FunctionCall")
+    fc = fc[0]
+
+    def cnew(it, p, fid, fn, t, args):
+        p.events.append(("callable", tuple(args)))
+        return Opaque("callable")
+    ms = dict(absint.DEFAULT_MODELS)
+    ms.update(seqgen.MODELS)
+    ms.update(jumps.MODELS)
+    ms["compiler::ast::callable::Callable::new"] = cnew
+    bools = [fl["name"] for fl in fc["fields"] if fl["ty"] == "bool"]
+    n, named = 0, 0
+    bad, und = [], []
+    for combo in itertools.product((TRUE, FALSE), repeat=len(bools)):
+        m = dict(zip(bools, combo))
+        fields = [m[fl["name"]] if fl["ty"] == "bool" else Opaque(fl["name"]) for fl in fc["fields"]]
+        it = Interp(F, models=ms, max_depth=5, max_paths=512, loop_bound=16)
+        it.jcfg = {"expand": "body", "x": None}
+        it.jreg = []
+        outs = it.run(f, [Variant(DLO, names.index("FunctionCall"), "FunctionCall", fields), Opaque("state")])
+        label = ", ".join("%s=%s" % (k, "true" if v is TRUE else "false") for k, v in m.items())
+        for o in outs:
+            if o.kind != "return" or not (isinstance(o.value, Variant) and o.value.name == "Ok"):
+                continue
+            n += 1
+            ev = [e for e in o.events if e[0] == "callable"]
+            seq = o.value.fields[0]
+            if not ev or not isinstance(seq, seqgen.Seq):
+                und.append("%s: no call / no word read" % label)
+                continue
+            recv = ev[0][1][2] if len(ev[0][1]) > 2 else None
+            if isinstance(recv, Variant) and recv.name == "None":
+                continue
+            if not (isinstance(recv, Variant) and recv.name == "Some" and recv.fields and isinstance(recv.fields[0], Opaque)):
+                und.append("%s: receiver argument %r" % (label, recv))
+                continue
+            named += 1
+            reg = recv.fields[0].tag
+            stored = [x for x in seq.items if x[0] == "ins" and x[1] == "store_fast" and len(x) > 3 and x[3] and isinstance(x[3][0], Opaque) and x[3][0].tag == reg]
+            if not stored:
+                bad.append("%s: the call is told to load `self` from %s, which this link never stores into (emitted: %s): `self` is whatever an "
+                           "earlier expression left there, e.g. the previous link's receiver in `a.spawn().m()`" % (label, reg, " ".join(jumps.show_item(x) for x in seq.items)))
+        if it.exhausted:
+            und.append("%s: path bound" % label)
+    rep.floor("C08.receiver-bound evaluated paths of the method-call generator", n, 2)
+    rep.floor("C08.receiver-bound paths that name a receiver register", named, 1)
+    rep.ob("C08.receiver-bound", "a method-call link stores the receiver into the register it tells the call to load `self` from",
+           "violated" if bad else ("undecided" if und else "ok"), "; ".join((bad or und)[:2]), f.span, fn=f.path, key="C08.receiver-bound")
